@@ -1236,6 +1236,9 @@ class BadCatalogue:
             ('add_hard_link/dup-new-udf', 'add_hard_link', True, self.link_dup_new_in('udf')),
             ('add_directory/relocation-name-taken', 'add_directory', True, self.add_dir_reloc_name_taken),
             ('add_hard_link/old-path-is-a-symlink', 'add_hard_link', False, self.link_old_is_symlink),
+            ('add_fp/rr-name-longer-than-a-block', 'add_fp', False, self.rr_too_long('add_fp')),
+            ('add_directory/rr-name-longer-than-a-block', 'add_directory', False, self.rr_too_long('add_directory')),
+            ('add_symlink/rr-target-longer-than-a-block', 'add_symlink', True, self.rr_too_long('add_symlink')),
         ]
         return rows
 
@@ -1256,6 +1259,28 @@ class BadCatalogue:
         if self.m.rr:
             kw['rr_name'] = nm['rr']
         return 'add_hard_link', kw
+
+    def rr_too_long(self, meth):
+        def b(op):
+            m = self.m
+            if not m.rr:
+                raise Skip('needs Rock Ridge')
+            long_ = ('n%d' % op['n']) + 'x' * (2100 + 97 * (op.get('i', 0) % 5))
+            if meth == 'add_symlink':
+                nm, paths = self.fresh(op)
+                kw = {'symlink_path': paths['iso'], 'rr_symlink_name': nm['rr'], 'rr_path': '/'.join(['dir%d' % op['n']] * (450 + op.get('i', 0) % 200))}
+                if m.has['jol']:
+                    kw['joliet_path'] = paths['jol']
+                if m.has['udf']:
+                    kw['udf_symlink_path'] = paths['udf']
+                    kw['udf_target'] = 'short'
+                return 'add_symlink', kw
+            nm, paths, kw = self.base_add(op, meth == 'add_directory')
+            kw['rr_name'] = long_
+            if meth == 'add_fp':
+                kw.update(self.content_args(op))
+            return meth, kw
+        return b
 
     def link_old_is_symlink(self, op):
         if not self.m.rr:
